@@ -312,101 +312,7 @@ var failClasses = []failClass{
 		s.Facts.Patches = s.Spec.Patches
 		s.Facts.DeltaValid = h.hasIETF
 	}},
-	{"delta-invalid-patch", "cur", func(h *histCtx, s *opStep) {
-		bad := gen.RandDocKey(h.r, strings.Repeat("k", 51))
-		var badPatch map[string]interface{}
-		edKey := func() map[string]interface{} {
-			return gen.DocKey(h.r, "key1", gen.TEd2018, []string{"authentication"}, "jwk")
-		}
-		switch h.r.Intn(26) {
-		case 0:
-			bad = gen.RandDocKey(h.r, "key1")
-			bad["extra"] = true
-		case 1: // key material present but unusable
-			bad = edKey()
-			bad["publicKeyJwk"] = nil
-		case 2:
-			bad = edKey()
-			bad["publicKeyJwk"] = "not-an-object"
-		case 3:
-			bad = edKey()
-			delete(bad, "publicKeyJwk")
-			bad["publicKeyBase58"] = ""
-		case 4:
-			bad = edKey()
-			delete(bad, "publicKeyJwk")
-		case 5:
-			bad = edKey()
-			bad["purposes"] = []interface{}{"authentication", "frobnication"}
-		case 6:
-			bad = edKey()
-			bad["id"] = "key 1"
-		case 7:
-			bad = edKey()
-			delete(bad, "type")
-		case 8:
-			sv := gen.RandService(h.r, "svc1")
-			sv["type"] = strings.Repeat("t", 31)
-			badPatch = gen.PAddServices(sv)
-		case 9:
-			sv := gen.RandService(h.r, "svc1")
-			sv["serviceEndpoint"] = "not a uri"
-			badPatch = gen.PAddServices(sv)
-		case 10:
-			badPatch = gen.PAddAka("https://ok.example", "::not a uri::")
-		case 11:
-			badPatch = gen.PRemoveKeys("ok", "bad id")
-		case 12:
-			badPatch = gen.PReplace([]interface{}{edKey(), edKey()}, nil) // duplicate ids
-		case 13:
-			badPatch = gen.PRemoveServices()
-		case 14:
-			bad = edKey()
-			bad["id"] = ""
-		case 15:
-			bad = edKey()
-			bad["id"] = nil
-		case 16:
-			badPatch = gen.PRemoveKeys("")
-		case 17:
-			badPatch = gen.PRemoveServices("ok", "")
-		case 18:
-			bad = edKey()
-			bad["purposes"] = nil
-		case 19:
-			bad = edKey()
-			bad[""] = 1
-		case 20:
-			// every operation of an ietf-json-patch is checked, also the ones after a move / copy
-			if h.hasIETF {
-				badPatch = gen.PJSON(map[string]interface{}{"op": "add", "path": "/note", "value": 1}, map[string]interface{}{"op": fw.Pick(h.r, []string{"copy", "move"}), "from": "/note", "path": "/note2"},
-					map[string]interface{}{"op": "remove", "path": fw.Pick(h.r, []string{"/publicKey/0", "/service", "/publicKey"})})
-			}
-		case 21:
-			if h.hasIETF {
-				badPatch = gen.PJSON(map[string]interface{}{"op": "copy", "from": fw.Pick(h.r, []string{"/publicKey/0", "/service/0/serviceEndpoint", "/publicKey", "not-a-pointer"}), "path": "/stolen"})
-			}
-		case 22:
-			// the same URI twice, in a spelling URI libraries re-spell
-			u := fw.Pick(h.r, []string{"https://m\u00fcnchen.example/profile/jos\u00e9", "https://example.com/my profile", "HTTPS://Example.com/x", "did:example:bob"})
-			badPatch = gen.PAddAka("https://ok.example", u, u)
-		case 23:
-			bad = edKey()
-			bad["publicKeyJwk"] = map[string]interface{}{"kty": "OKP", "x": oracle.B64(h.r.Bytes(32))} // no curve
-		case 24:
-			bad = edKey()
-			bad["id"] = ""
-			bad["publicKeyJwk"].(map[string]interface{})["kid"] = "key1" // an id elsewhere does not replace the key's own id
-		case 25:
-			badPatch = map[string]interface{}{"action": "replace", "document": map[string]interface{}{"publicKeys": []interface{}{edKey()}, fw.Pick(h.r, []string{"id", "@context", "controller", "alsoKnownAs"}): nil}}
-		}
-		if badPatch == nil {
-			badPatch = gen.PAddKeys(bad)
-		}
-		s.Spec.Patches = []interface{}{gen.PAddKeys(gen.RandDocKey(h.r, "ok1")), badPatch}
-		s.Facts.Patches = s.Spec.Patches
-		s.Facts.DeltaValid = false
-	}},
+	{"delta-invalid-patch", "cur", func(h *histCtx, s *opStep) { invalidPatchDelta(h, s, h.r.Intn(invalidPatchVariants)) }},
 	{"delta-update-commitment-unsupported-algorithm", "cur", func(h *histCtx, s *opStep) {
 		s.Spec.UpdateCommitment = unsupportedHash(h.r)
 		s.Facts.UpdateCommitment = s.Spec.UpdateCommitment
@@ -1021,4 +927,111 @@ func runHistoryProto(c *fw.Case, plan []planEntry, keyType string, code uint64, 
 	}
 	c.Sig(outcomes, keyType)
 	c.Sample(map[string]interface{}{"key_type": keyType, "code": code, "outcomes": outcomes, "first_request": trace[0].(map[string]interface{})["request"]})
+}
+
+const invalidPatchVariants = 26
+
+// invalidPatchDelta installs a delta whose second patch breaks one patch-validation constraint (variant 0..25).
+func invalidPatchDelta(h *histCtx, s *opStep, variant int) {
+	bad := gen.RandDocKey(h.r, strings.Repeat("k", 51))
+	var badPatch map[string]interface{}
+	edKey := func() map[string]interface{} {
+		return gen.DocKey(h.r, "key1", gen.TEd2018, []string{"authentication"}, "jwk")
+	}
+	switch variant {
+	case 0:
+		bad = gen.RandDocKey(h.r, "key1")
+		bad["extra"] = true
+	case 1: // key material present but unusable
+		bad = edKey()
+		bad["publicKeyJwk"] = nil
+	case 2:
+		bad = edKey()
+		bad["publicKeyJwk"] = "not-an-object"
+	case 3:
+		bad = edKey()
+		delete(bad, "publicKeyJwk")
+		bad["publicKeyBase58"] = ""
+	case 4:
+		bad = edKey()
+		delete(bad, "publicKeyJwk")
+	case 5:
+		bad = edKey()
+		bad["purposes"] = []interface{}{"authentication", "frobnication"}
+	case 6:
+		bad = edKey()
+		bad["id"] = "key 1"
+	case 7:
+		bad = edKey()
+		delete(bad, "type")
+	case 8:
+		sv := gen.RandService(h.r, "svc1")
+		sv["type"] = strings.Repeat("t", 31)
+		badPatch = gen.PAddServices(sv)
+	case 9:
+		sv := gen.RandService(h.r, "svc1")
+		sv["serviceEndpoint"] = "not a uri"
+		badPatch = gen.PAddServices(sv)
+	case 10:
+		badPatch = gen.PAddAka("https://ok.example", "::not a uri::")
+	case 11:
+		badPatch = gen.PRemoveKeys("ok", "bad id")
+	case 12:
+		badPatch = gen.PReplace([]interface{}{edKey(), edKey()}, nil) // duplicate ids
+	case 13:
+		badPatch = gen.PRemoveServices()
+	case 14:
+		bad = edKey()
+		bad["id"] = ""
+	case 15:
+		bad = edKey()
+		bad["id"] = nil
+	case 16:
+		badPatch = gen.PRemoveKeys("")
+	case 17:
+		badPatch = gen.PRemoveServices("ok", "")
+	case 18:
+		bad = edKey()
+		bad["purposes"] = nil
+	case 19:
+		bad = edKey()
+		bad[""] = 1
+	case 20:
+		// every operation of an ietf-json-patch is checked, also the ones after a move / copy
+		if h.hasIETF {
+			badPatch = gen.PJSON(map[string]interface{}{"op": "add", "path": "/note", "value": 1}, map[string]interface{}{"op": fw.Pick(h.r, []string{"copy", "move"}), "from": "/note", "path": "/note2"},
+				map[string]interface{}{"op": "remove", "path": fw.Pick(h.r, []string{"/publicKey/0", "/service", "/publicKey"})})
+		}
+	case 21:
+		if h.hasIETF {
+			badPatch = gen.PJSON(map[string]interface{}{"op": "copy", "from": fw.Pick(h.r, []string{"/publicKey/0", "/service/0/serviceEndpoint", "/publicKey", "not-a-pointer"}), "path": "/stolen"})
+		}
+	case 22:
+		// the same URI twice, in a spelling URI libraries re-spell
+		u := fw.Pick(h.r, []string{"https://m\u00fcnchen.example/profile/jos\u00e9", "https://example.com/my profile", "HTTPS://Example.com/x", "did:example:bob"})
+		badPatch = gen.PAddAka("https://ok.example", u, u)
+	case 23:
+		bad = edKey()
+		bad["publicKeyJwk"] = map[string]interface{}{"kty": "OKP", "x": oracle.B64(h.r.Bytes(32))} // no curve
+	case 24:
+		bad = edKey()
+		bad["id"] = ""
+		bad["publicKeyJwk"].(map[string]interface{})["kid"] = "key1" // an id elsewhere does not replace the key's own id
+	case 25:
+		badPatch = map[string]interface{}{"action": "replace", "document": map[string]interface{}{"publicKeys": []interface{}{edKey()}, fw.Pick(h.r, []string{"id", "@context", "controller", "alsoKnownAs"}): nil}}
+	}
+	if badPatch == nil {
+		badPatch = gen.PAddKeys(bad)
+	}
+	s.Spec.Patches = []interface{}{gen.PAddKeys(gen.RandDocKey(h.r, "ok1")), badPatch}
+	s.Facts.Patches = s.Spec.Patches
+	s.Facts.DeltaValid = false
+}
+
+// every variant also as a class of its own, so that each check that walks the classes meets each constraint
+func init() {
+	for v := 0; v < invalidPatchVariants; v++ {
+		v := v
+		failClasses = append(failClasses, failClass{fmt.Sprintf("delta-invalid-patch/%d", v), "cur", func(h *histCtx, s *opStep) { invalidPatchDelta(h, s, v) }})
+	}
 }
